@@ -16,6 +16,17 @@
 #include "joint_allocator.hpp"
 #include "memory_pool.hpp"
 #include "threading.hpp"
+#include "aligned_allocator.hpp"
+#include "fallback_allocator.hpp"
+#include "iteration_allocator.hpp"
+#include "malloc_allocator.hpp"
+#include "memory_pool_collection.hpp"
+#include "memory_stack.hpp"
+#include "new_allocator.hpp"
+#include "segregator.hpp"
+#include "static_allocator.hpp"
+#include "tracking.hpp"
+#include "virtual_memory.hpp"
 
 using namespace foonathan::memory;
 using namespace verif;
@@ -222,6 +233,66 @@ static void hammer(const char* name, Storage& st, int nthreads, long iters, bool
     CUR = nullptr;
 }
 
+// trackers for tracked_allocator: one with state, one without
+struct CountTracker
+{
+    long n = 0;
+    void on_node_allocation(void*, std::size_t, std::size_t) noexcept { ++n; }
+    void on_array_allocation(void*, std::size_t, std::size_t, std::size_t) noexcept { ++n; }
+    void on_node_deallocation(void*, std::size_t, std::size_t) noexcept { --n; }
+    void on_array_deallocation(void*, std::size_t, std::size_t, std::size_t) noexcept { --n; }
+};
+struct EmptyTracker
+{
+    void on_node_allocation(void*, std::size_t, std::size_t) noexcept {}
+    void on_array_allocation(void*, std::size_t, std::size_t, std::size_t) noexcept {}
+    void on_node_deallocation(void*, std::size_t, std::size_t) noexcept {}
+    void on_array_deallocation(void*, std::size_t, std::size_t, std::size_t) noexcept {}
+};
+// (this file is compiled WITHOUT -fno-access-control: with it, typedefs of privately inherited bases become visible to the traits'
+// detection idiom and e.g. a segregator would show the is_stateful of its fallback)
+// the selection rule behind thread_safe_allocator: a stateful allocator (allocator_traits<A>::is_stateful) gets the mutex it is
+// given, a stateless one gets none - for the library's own allocators and adapters, adapters over stateless allocators included
+template <class A>
+static bool mutex_rule(const char* name, bool expect_stateful)
+{
+    bool stateful = allocator_traits<A>::is_stateful::value;
+    if (stateful != expect_stateful)
+    {
+        std::printf("lktype %s stateful=%d EXPECTED %d\n", name, (int)stateful, (int)expect_stateful);
+        return false;
+    }
+    bool gets = std::is_same<detail::mutex_for<A, OwnerMutex>, OwnerMutex>::value;
+    bool none = std::is_same<detail::mutex_for<A, OwnerMutex>, no_mutex>::value;
+    std::printf("lktype %s stateful=%d mutex=%d none=%d\n", name, (int)stateful, (int)gets, (int)none);
+    return stateful ? gets : none;
+}
+static bool mutex_rules()
+{
+    bool ok = true;
+    ok &= mutex_rule<heap_allocator>("heap_allocator", false);
+    ok &= mutex_rule<malloc_allocator>("malloc_allocator", false);
+    ok &= mutex_rule<new_allocator>("new_allocator", false);
+    ok &= mutex_rule<virtual_memory_allocator>("virtual_memory_allocator", false);
+    ok &= mutex_rule<static_allocator>("static_allocator", true);
+    ok &= mutex_rule<memory_pool<>>("memory_pool", true);
+    ok &= mutex_rule<memory_pool<small_node_pool>>("memory_pool<small>", true);
+    ok &= mutex_rule<memory_pool_collection<node_pool, identity_buckets>>("memory_pool_collection", true);
+    ok &= mutex_rule<memory_stack<>>("memory_stack", true);
+    ok &= mutex_rule<iteration_allocator<2>>("iteration_allocator", true);
+    ok &= mutex_rule<tracked_allocator<CountTracker, heap_allocator>>("tracked<stateful tracker, heap>", true);
+    ok &= mutex_rule<tracked_allocator<EmptyTracker, heap_allocator>>("tracked<empty tracker, heap>", false);
+    ok &= mutex_rule<tracked_allocator<EmptyTracker, CheckedAlloc>>("tracked<empty tracker, stateful>", true);
+    ok &= mutex_rule<tracked_allocator<CountTracker, CheckedAlloc>>("tracked<stateful tracker, stateful>", true);
+    ok &= mutex_rule<aligned_allocator<heap_allocator>>("aligned<heap>", true);
+    ok &= mutex_rule<aligned_allocator<CheckedAlloc>>("aligned<stateful>", true);
+    ok &= mutex_rule<fallback_allocator<CheckedAlloc, heap_allocator>>("fallback<stateful, heap>", true);
+    ok &= mutex_rule<fallback_allocator<memory_stack<>, heap_allocator>>("fallback<memory_stack, heap>", true);
+    ok &= mutex_rule<binary_segregator<threshold_segregatable<CheckedAlloc>, heap_allocator>>("segregator<stateful, heap>", true);
+    ok &= mutex_rule<binary_segregator<threshold_segregatable<heap_allocator>, malloc_allocator>>("segregator<heap, malloc>", true);
+    return ok;
+}
+
 int main(int argc, char** argv)
 {
     bool thorough = argc > 1 && std::atoi(argv[1]) != 0;
@@ -230,7 +301,7 @@ int main(int argc, char** argv)
     std::printf("lkcfg stateless_no_mutex=%d stateful_given_mutex=%d joint_thread_safe=%d\n",
                 (int)std::is_same<detail::mutex_for<heap_allocator, std::mutex>, no_mutex>::value,
                 (int)(std::is_same<detail::mutex_for<CheckedAlloc, OwnerMutex>, OwnerMutex>::value
-                      && std::is_same<detail::mutex_for<CheckedAllocEmpty, OwnerMutex>, OwnerMutex>::value),
+                      && std::is_same<detail::mutex_for<CheckedAllocEmpty, OwnerMutex>, OwnerMutex>::value && mutex_rules()),
                 (int)is_thread_safe_allocator<joint_allocator>::value);
     for (int n : {2, 4, 8})
     {
